@@ -28,9 +28,11 @@ var coqMaxFn = 12000
 var coqMaxTotal = 60000
 
 type input struct {
-	Kind string `json:"kind"` // file | src | adv | codec
+	Kind string `json:"kind"` // file | src | adv | codec | twin | hist
 	Path string `json:"path,omitempty"`
 	Src  string `json:"src,omitempty"`
+	Src2 string `json:"src2,omitempty"` // twin: the variant (same program with pads); empty for an execution-mode twin
+	Mode string `json:"mode,omitempty"` // twin: kpad | rpad | grow | used`
 	Fam  string `json:"family,omitempty"`
 	N    int    `json:"n,omitempty"`
 	Run  bool   `json:"run"`
@@ -48,8 +50,11 @@ type ctx struct {
 	runErrs  int
 	ntrans   int
 	deferred []func()
-	expect   []string // adversarial programs with a known result: the values the chunk must return
-	forceCoq bool     // thorough tier: push this (large) case through coqc regardless of the size limit
+	expect   []string   // adversarial programs with a known result: the values the chunk must return
+	lastRes  *runResult // the in-process run of the case processed last (nil: not run, or it failed already)
+	lastID   int        // its case id (-1: no case was recorded)
+	twin     twinStats
+	forceCoq bool // thorough tier: push this (large) case through coqc regardless of the size limit
 }
 
 func main() {
@@ -89,6 +94,7 @@ func main() {
 		scriptFiles(c, a.Tier)
 		adversarial(c, a.Tier)
 		generated(c, r.Fork(), a.Tier)
+		history(c, a.Tier)
 	}
 	w.Meta.GoOnlyChecked = c.goOnly
 	w.Meta.Extra = map[string]any{
@@ -96,6 +102,9 @@ func main() {
 		"distinct_transitions_checked": c.ntrans, "activation_starts_not_checked": c.starts,
 		"runs_cut_by_budget": c.overBudg, "runs_ending_in_lua_error": c.runErrs,
 		"coq_size_limit_per_function": coqMaxFn,
+		"twin_runs":                   c.twin.Runs, "twin_outcomes_compared": c.twin.Compared, "twin_incomparable": c.twin.Incomparable,
+		"twin_variant_rejected_by_front_end": c.twin.Rejected, "twin_variants_with_register_string_keys": c.twin.RegKeys,
+		"history_recompiled": c.twin.Hist,
 	}
 	if err := w.Close(); err != nil {
 		panic(err)
@@ -132,6 +141,7 @@ func (c *ctx) processWithTrace(in input, src, name, class string, pre *childOut)
 }
 
 func (c *ctx) processPre(in input, src, name, class string, kf []string, setup func(*lua.LState), pre *childOut) {
+	c.lastRes, c.lastID = nil, -1
 	fp, _, pan := compileSrc(src, name)
 	if pan != "" {
 		id := c.w.Add(lib.Case{Coq: dummy, Input: in, Observed: map[string]any{"panic": pan}, KF: kf, Class: class + "/panic"})
@@ -143,6 +153,7 @@ func (c *ctx) processPre(in input, src, name, class string, kf []string, setup f
 		c.w.Meta.Discarded++
 		return
 	}
+	noteForHistory(src, fp)
 	root := dumpProto(fp)
 	gowf, why := wfProto(root)
 	obs := map[string]any{"protos": len(flatten(root)), "insts": root.totalInsts(), "go_wf": gowf}
@@ -180,6 +191,9 @@ func (c *ctx) processPre(in input, src, name, class string, kf []string, setup f
 		if in.Kind == "adv" {
 			budget = 700000
 		}
+		if in.Kind == "twin" {
+			budget = 4*30000 + 2000
+		}
 		tr, res = runTraced(fp, root, budget, setup)
 		c.runs++
 		c.runInsts += res.Insts
@@ -188,15 +202,17 @@ func (c *ctx) processPre(in input, src, name, class string, kf []string, setup f
 			c.overBudg++
 		}
 		obs["run_insts"] = res.Insts
-		if res.Panicked != "" || (res.Err != "" && goRuntimePanic(res.Err)) {
+		if res.Panicked != "" || (res.Err != "" && (res.GoPanic || goRuntimePanic(res.Err))) {
 			obs["run_error"] = res.Err + res.Panicked
 			id := c.w.Add(lib.Case{Coq: dummy, Input: in, Observed: obs, KF: kf, Class: class + "/runfault"})
+			c.lastID = id
 			c.w.GoFail(id, "Go runtime panic while running compiled code: "+trunc(res.Err+res.Panicked, 200))
 			return
 		}
 		if res.Err != "" && !res.Over {
 			c.runErrs++
 		}
+		c.lastRes = &res
 		if c.expect != nil {
 			obs["results"] = res.Results
 			if res.Err != "" || strings.Join(res.Results, ",") != strings.Join(c.expect, ",") {
@@ -248,6 +264,7 @@ func (c *ctx) processPre(in input, src, name, class string, kf []string, setup f
 	}
 	sb.WriteString("]")
 	id := c.w.Add(lib.Case{Coq: sb.String(), Input: in, Observed: obs, KF: kf, Nontrivial: nontrivialProto(root), Class: class})
+	c.lastID = id
 	if wrong != "" {
 		c.w.GoFail(id, wrong)
 	}
@@ -287,5 +304,9 @@ func replay(c *ctx, file string) {
 		runAdv(c, in.Fam, in.N)
 	case "codec":
 		codecOne(c, in.Fam, in.Args)
+	case "twin":
+		replayTwin(c, in)
+	case "hist":
+		histOne(c, in.Src, true)
 	}
 }
